@@ -1,21 +1,23 @@
--- hand-written bootstrap; replaced by gen/factgen output
+-- Values taken from the Go sources. Every annotated line is re-extracted from /repo by /verif/gen on each check run.
 namespace Facts
-def defaultPieces : List Nat := [0, 0, 0, 10, 15, 21, 30, 40, 50]
-def defaultCaps : List Nat := [0, 0, 0, 0, 0, 1, 1, 2, 2]
-def colorWhite : Nat := 128
-def colorBlack : Nat := 64
-def colorMask : Nat := 192
-def kindFlat : Nat := 1
-def kindStanding : Nat := 2
-def kindCapstone : Nat := 3
-def typeMask : Nat := 3
-def fnvBasis : Nat := 14695981039346656037
-def mtPass : Nat := 1
-def mtPlaceFlat : Nat := 2
-def mtPlaceStanding : Nat := 3
-def mtPlaceCapstone : Nat := 4
-def mtSlideLeft : Nat := 5
-def mtSlideRight : Nat := 6
-def mtSlideUp : Nat := 7
-def mtSlideDown : Nat := 8
+def defaultPieces : List Nat := [0, 0, 0, 10, 15, 21, 30, 40, 50]  -- go: tak/game.go var defaultPieces
+def defaultCaps : List Nat := [0, 0, 0, 0, 0, 1, 1, 2, 2]  -- go: tak/game.go var defaultCaps
+def colorWhite : Nat := 128  -- go: tak/pieces.go const White
+def colorBlack : Nat := 64  -- go: tak/pieces.go const Black
+def colorMask : Nat := 192  -- go: tak/pieces.go const colorMask
+def kindFlat : Nat := 1  -- go: tak/pieces.go const Flat
+def kindStanding : Nat := 2  -- go: tak/pieces.go const Standing
+def kindCapstone : Nat := 3  -- go: tak/pieces.go const Capstone
+def typeMask : Nat := 3  -- go: tak/pieces.go const typeMask
+def fnvBasis : Nat := 14695981039346656037  -- go: tak/hash.go const fnvBasis
+def fnvPrime : Nat := 1099511628211  -- go: tak/hash.go const fnvPrime
+def mtPass : Nat := 1  -- go: tak/move.go const Pass
+def mtPlaceFlat : Nat := 2  -- go: tak/move.go const PlaceFlat
+def mtPlaceStanding : Nat := 3  -- go: tak/move.go const PlaceStanding
+def mtPlaceCapstone : Nat := 4  -- go: tak/move.go const PlaceCapstone
+def mtSlideLeft : Nat := 5  -- go: tak/move.go const SlideLeft
+def mtSlideRight : Nat := 6  -- go: tak/move.go const SlideRight
+def mtSlideUp : Nat := 7  -- go: tak/move.go const SlideUp
+def mtSlideDown : Nat := 8  -- go: tak/move.go const SlideDown
+def mtTypeMask : Nat := 15  -- go: tak/move.go const TypeMask
 end Facts
